@@ -54,6 +54,8 @@ def _span_run(params, values):
     md = get_md(params["cfg"])
     k = params["k"]
     text = "".join(values["abcdefgh"[i]] for i in range(k))
+    if params.get("pad"):
+        text = " " + text + " "  # padded span: one space is stripped from each side unless the text is all U+0020
     tick = "`" * params["ticks"]
     src = params.get("pre", "") + tick + text + tick + params.get("post", "")
     toks = []
@@ -91,7 +93,7 @@ VERB_CTX = [
     ("list-fence", "- ```\n  "), ("code", "    "), ("code-2", "    a\n    "), ("list-code", "- a\n\n      "),
     ("quote-code", ">     "), ("html", "<div>\n"), ("html-quote", "> <div>\n> "), ("hr", "--"), ("hr-star", "* *"),
     ("list-hr", "- **"), ("atx", "#"), ("atx2", "## a "), ("setext", "a\n"), ("olist", "1"), ("olist-2", "12"),
-    ("olist-quote", "> 1"), ("tab-code", "\t"), ("tab-list-code", "-\t\t"), ("olist-tab-2nd", "\t1. a\n\t2"), ("olist-2nd", "1. a\n1"),
+    ("olist-quote", "> 1"), ("tab-code", "\t"), ("tab-list-code", "-\t\t"), ("olist-tab-2nd", "- x\n\t1. a\n\t2"), ("olist-sptab-2nd", "- x\n \t1. a\n \t12"), ("olist-2nd", "1. a\n1"),
     ("fence-close-longer", "```\nx\n```"), ("fence-close-trail", "~~~\nx\n~~~"),
 ]
 
@@ -125,6 +127,8 @@ def jobs(tier, seed):
                              "weight": 4, "cpu_cap": 900, "wall_cap": 1500})
     ks = 2 if tier == "quick" else 3
     for ticks in (1, 2):
+        jobs.append({"harness": "codespan", "params": {"cfg": JS, "k": 1, "ticks": ticks, "pre": "", "post": "", "pad": True},
+                     "weight": 3, "cpu_cap": 900, "wall_cap": 1500})
         for pre, post in (("", ""), ("a ", " b")):
             jobs.append({"harness": "codespan", "params": {"cfg": JS, "k": ks, "ticks": ticks, "pre": pre, "post": post},
                          "weight": 6, "cpu_cap": 900, "wall_cap": 1500})
